@@ -8,7 +8,7 @@ import time
 
 import numpy as np
 
-from ..harness import T, sig_of, elem_names
+from ..harness import T, sig_of, elem_names, gradof, set_grad
 from ..symnum import engine as E
 from .. import runner
 
@@ -186,7 +186,7 @@ class Case:
         out.fact("consumers are differentiated before their operands (reverse topological order)", ok_order)
         # a leaf the root does not depend on must be left alone (no gradient buffer at all)
         out.vjp = dict(outs=[root.data], gs=[g],
-                       inputs=[("L%d" % i, t.data, t._grad, t.requires_grad and id(t) in seen)
+                       inputs=[("L%d" % i, t.data, gradof(t), t.requires_grad and id(t) in seen)
                                for i, t in enumerate(leaves)])
         out.notes["names"] = names
         # (c) a different construction order of the independent sub-expressions gives the same gradients
@@ -196,8 +196,8 @@ class Case:
             vals2 = self.build(leaves2, order2)
             vals2[-1].backward(Tn(g))
             for i, (t1, t2) in enumerate(zip(leaves, leaves2)):
-                if t1.requires_grad and t1._grad is not None and t2._grad is not None:
-                    out.pair("grad(L%d) independent of construction order" % i, t2._grad, t1._grad)
+                if t1.requires_grad and gradof(t1) is not None and gradof(t2) is not None:
+                    out.pair("grad(L%d) independent of construction order" % i, gradof(t2), gradof(t1))
         return out
 
 
